@@ -198,7 +198,10 @@ def relocate(ctx, violations, known_keys, hit_keys):
         by_sig.setdefault(_sig(k), []).append(k)
     # C04's R4b sites share C07's (P2) reviewed-safe entries: the obligation is the same read, judged by two properties
     alias = {"R4b": "P2"}
-    present = {o.key for o in ctx.obs} | {alias[o.rule] + "|" + o.key.split("|", 1)[1] for o in ctx.obs if o.rule in alias}
+    # an entry is in use when an *unproven* obligation carries its key (a discharged obligation that happens to have the key of a
+    # listed site — the ordinal shifted — does not use it up)
+    unproven = [o for o in ctx.obs if o.verdict != "discharged"]
+    present = {o.key for o in unproven} | {alias[o.rule] + "|" + o.key.split("|", 1)[1] for o in unproven if o.rule in alias}
     rules_here = {o.rule for o in ctx.obs} | {alias[o.rule] for o in ctx.obs if o.rule in alias}
     stale_rev = [k for k in ctx.reviewed if k not in present and k.split("|")[0] in rules_here]
     rev_by_sig = {}
